@@ -6,25 +6,22 @@
      lookup n = [ o | o alive, name_of o = n ]   in that order            (n <> 0)
    Naming an object (also with the name it already has) moves it to the end under the new
    name; destroying it takes it out.  `$n` is NULL (with the NoTarget warning), the object,
-   or the group [lookup n] according to 0 / 1 / more members.  A command applied to a group
-   reaches every member of the group as it was when the command started, in order, exactly
-   once, provided the member is still alive at its turn - and nobody else; a field
-   assignment reaches every member.
-   A value stored in a variable keeps denoting what it denoted: NULL, the object (NULL once
-   the object is dead), or the ARRAY of the objects that formed the group when it was
-   stored (dead members read as NULL, the size does not change, commands and field
-   assignments reach the members still alive). *)
+   or the group [lookup n] according to 0 / 1 / more members.  A group is a value: the array
+   of the objects that bear the name at that moment, in naming order; stored in a variable it
+   keeps denoting those objects (a destroyed member reads NULL, the size does not change).
+   A command applied to a group reaches every member, in order, exactly once, provided the
+   member is still alive at its turn - and nobody else.  A field assignment applied to a group
+   does the same; it ends at the first member whose setter raises an error.  A targetname
+   assignment through a group therefore moves every member. *)
 From Coq Require Import NArith List Bool.
 From Morfuse Require Import C15.Model.
 Import ListNotations.
 Local Open Scope N_scope.
 
-Inductive sval := SNull | SObj (k : N) | SArr (l : list N).
-
 Record abs := mkAbs {
   sobjs : list (N * N);         (* (id, name), most recently named last *)
   snext : N;
-  scaps : list (N * sval) }.
+  scaps : list (N * value) }.
 
 Definition abs_init : abs := mkAbs [] 1 [].
 
@@ -45,22 +42,13 @@ Definition s_dump (a : abs) : list (list N) :=
   [lookup 1 (sobjs a); lookup 2 (sobjs a); lookup 3 (sobjs a); lookup 4 (sobjs a);
    lookup 5 (sobjs a); unnamed (sobjs a)].
 
-Definition s_eval_name (a : abs) (n : N) : sval * list warn :=
-  match lookup n (sobjs a) with
-  | [] => (SNull, [WNoTarget])
-  | [k] => (SObj k, [])
-  | l => (SArr l, [])
-  end.
+(* the 0 / 1 / many rule *)
+Definition s_eval_name (a : abs) (n : N) : value * list warn := value_of_list (lookup n (sobjs a)).
 
-Definition s_resolve (a : abs) (t : target) : rval * list warn * bool :=
+Definition s_resolve (a : abs) (t : target) : rval * list warn :=
   match t with
-  | TName n => let '(r, w) := rval_of_list (lookup n (sobjs a)) in (r, w, false)
-  | TCap j =>
-      match getc SNull (scaps a) j with
-      | SNull => (RNull, [], false)
-      | SObj k => (if alive_in (sobjs a) k then RObj k else RNull, [], false)
-      | SArr l => (RGrp (map (fun k => if alive_in (sobjs a) k then k else 0) l), [], true)
-      end
+  | TName n => let '(v, w) := s_eval_name a n in (look (sobjs a) v, w)
+  | TCap j => (look (sobjs a) (getc VNull (scaps a) j), [])
   end.
 
 Definition s_apply (a : abs) (k : N) (c : cmd) (log : list N) : abs * list N :=
@@ -71,7 +59,7 @@ Definition s_apply (a : abs) (k : N) (c : cmd) (log : list N) : abs * list N :=
   | CKill j => (s_destroy a j, log ++ [k])
   end.
 
-(* every member of the group as it was, alive at its turn, once, in order *)
+(* every member of the group, alive at its turn, once, in order *)
 Fixpoint s_fanout (a : abs) (grp : list N) (c : cmd) (log : list N) : abs * list N :=
   match grp with
   | [] => (a, log)
@@ -81,40 +69,56 @@ Fixpoint s_fanout (a : abs) (grp : list N) (c : cmd) (log : list N) : abs * list
       else s_fanout a r c log
   end.
 
-Definition s_mk (a : abs) (v : oval) (w : list warn) (lg : list N) (fl : N) : abs * obs :=
-  (a, mkObs v w lg fl (s_dump a) false).
+Definition s_fstore (a : abs) (k : N) (f : fld) (log : list N) : abs * list N * bool :=
+  match f with
+  | FTag => (a, log ++ [k], false)
+  | FName n => (s_set_name a k n, log, false)
+  | FFuse j => (a, log ++ [k], k =? j)
+  | FZap j => (s_destroy a j, log ++ [k], false)
+  end.
+
+Fixpoint s_ffanout (a : abs) (grp : list N) (f : fld) (log : list N) : abs * list N * bool :=
+  match grp with
+  | [] => (a, log, false)
+  | k :: r =>
+      if alive_in (sobjs a) k
+      then let '(a', log', e) := s_fstore a k f log in
+           if e then (a', log', true) else s_ffanout a' r f log'
+      else s_ffanout a r f log
+  end.
+
+Definition s_mk (a : abs) (v : oval) (w : list warn) (lg : list N) : abs * obs :=
+  (a, mkObs v w lg (s_dump a)).
 
 Definition spec_step (a : abs) (o : op) : abs * obs :=
   match o with
-  | OSpawn n => s_mk (s_spawn a n) ONone [] [] 0
+  | OSpawn n => s_mk (s_spawn a n) ONone [] []
   | ORename k n =>
-      if alive_in (sobjs a) k then s_mk (s_set_name a k n) ONone [] [] 0 else s_mk a ODead [] [] 0
+      if alive_in (sobjs a) k then s_mk (s_set_name a k n) ONone [] [] else s_mk a ODead [] []
   | ODestroy k =>
-      if alive_in (sobjs a) k then s_mk (s_destroy a k) ONone [] [] 0 else s_mk a ODead [] [] 0
-  | OQuery t => let '(r, w, sg) := s_resolve a t in s_mk a (q_value r) w [] (flag_of sg)
-  | OSize t => let '(r, w, sg) := s_resolve a t in s_mk a (q_size r) w [] (flag_of sg)
+      if alive_in (sobjs a) k then s_mk (s_destroy a k) ONone [] [] else s_mk a ODead [] []
+  | OQuery t => let '(r, w) := s_resolve a t in s_mk a (q_value r) w []
+  | OSize t => let '(r, w) := s_resolve a t in s_mk a (q_size r) w []
   | OIndex t i =>
-      let '(r, w, sg) := s_resolve a t in
-      let '(v, w2) := q_index r i in s_mk a v (w ++ w2) [] (flag_of sg)
+      let '(r, w) := s_resolve a t in
+      let '(v, w2) := q_index r i in s_mk a v (w ++ w2) []
   | OCmd t c =>
-      let '(r, w, sg) := s_resolve a t in
+      let '(r, w) := s_resolve a t in
       match r with
-      | RNull => s_mk a ONone (w ++ [WNull]) [] (flag_of sg)
-      | RObj k => let '(a', lg) := s_apply a k c [] in s_mk a' ONone w lg (flag_of sg)
-      | RGrp l => let '(a', lg) := s_fanout a l c [] in s_mk a' ONone w lg (flag_of sg)
-      | RDangling => s_mk a ONone w [] (flag_of sg)      (* never produced by s_resolve *)
+      | RNull => s_mk a ONone (w ++ [WNull]) []
+      | RObj k => let '(a', lg) := s_apply a k c [] in s_mk a' ONone w lg
+      | RGrp l => let '(a', lg) := s_fanout a l c [] in s_mk a' ONone w lg
       end
-  | OField t =>
-      let '(r, w, sg) := s_resolve a t in
+  | OField t f =>
+      let '(r, w) := s_resolve a t in
       match r with
-      | RNull => s_mk a ONone (w ++ [WNull]) [] (flag_of sg)
-      | RObj k => s_mk a ONone w [k] (flag_of sg)
-      | RGrp l => s_mk a ONone w (filter (fun k => alive_in (sobjs a) k) l) (if sg then 2 else 1)
-      | RDangling => s_mk a ONone w [] (flag_of sg)
+      | RNull => s_mk a ONone (w ++ [WNull]) []
+      | RObj k => let '(a', lg, e) := s_fstore a k f [] in s_mk a' ONone (w ++ fail_warn e) lg
+      | RGrp l => let '(a', lg, e) := s_ffanout a l f [] in s_mk a' ONone (w ++ fail_warn e) lg
       end
   | OCapture j n =>
       let '(v, w) := s_eval_name a n in
-      s_mk (mkAbs (sobjs a) (snext a) ((j, v) :: scaps a)) ONone w [] 0
+      s_mk (mkAbs (sobjs a) (snext a) ((j, v) :: scaps a)) ONone w []
   end.
 
 Fixpoint spec_from (a : abs) (ops : list op) : list obs :=
